@@ -1073,7 +1073,15 @@ def _(eng, ci, a, dt):
         args = list(args.f)
     else:
         raise Unsupported('Fn::call argument pack %r' % (args,))
-    return eng.call_callable(a[0], args)
+    f = a[0]
+    fv = deref(f) if type(f) is Ref else f
+    if fv is None and ci.self_ty and '{closure@' in ci.self_ty:
+        # a closure without captures is a zero-sized value: its local is never written
+        t = ci.self_ty
+        i = t.index('{closure@')
+        from .mirparse import find_matching
+        f = Closure(t[i:find_matching(t, i) + 1], [])
+    return eng.call_callable(f, args)
 
 
 # ----------------------------------------------------------------------------- NonZero (chrono's NaiveDate is a NonZero<i32>)
